@@ -225,7 +225,16 @@ func (x *Exec) evalReceiver(se *ast.SelectorExpr, sel *types.Selection, sig *typ
 	}
 	if fnObj, ok := sel.Obj().(*types.Func); ok && !isRepoObj(fnObj) {
 		// methods of external types are opaque functions of the outer value, even when
-		// promoted from embedded fields
+		// promoted from embedded fields; a pointer-receiver method on an addressable local gets its address
+		if wantPtr {
+			if id, ok := ast.Unparen(se.X).(*ast.Ident); ok {
+				if lv, ok := x.info().Uses[id].(*types.Var); ok && x.boxed[lv] {
+					if _, isPtr := lv.Type().Underlying().(*types.Pointer); !isPtr {
+						return st.vars[lv], types.NewPointer(lv.Type()), nil
+					}
+				}
+			}
+		}
 		v := x.eval(se.X, st)
 		return v, x.typeOf(se.X), nil
 	}
